@@ -1,5 +1,10 @@
 (* C10 - the parser yields exactly the documented meaning, or rejects. *)
 From InfOCF Require Import Core Tol Form Parse Lexer ThmParse ThmLexRT.
+From InfOCF Require Import PyLib PyStr PyTree TieVisit.
+From InfOCFGen Require Import SrcVisit.
+Local Open Scope list_scope.
+Notation length := List.length.
+Notation concat := List.concat.
 
 (* the precedence-climbing parser (the shape of ANTLR's generated rule for the left-recursive `formula`) accepts a
    token list with result f exactly when the list derives f in the documented grammar: negation binds tighter than
@@ -47,3 +52,17 @@ Print Assumptions C10_conditional_text_relexes.
 Example parse_example : option_map fst (parse_formula_str s1) = Some (FOr (FAnd (FVar 0) (FNot (FVar 1))) (FAnd (FVar 2) FTop))
   /\ parse_formula_str [97;32;98] = None.
 Proof. vm_compute. split; reflexivity. Qed.
+
+(* SOURCE TIE.  The formula methods of the parse-tree visitor are GENERATED on every run from /repo's parser/myVisitor.py (coq/gen/SrcVisit.v;
+   the bookkeeping list sigcheck is left out).  Under ANTLR's dispatch - the labelled alternative of a node selects the method - every
+   parse tree of the formula rule is mapped to the formula it denotes: #Or to a disjunction, #And to a conjunction, #Negation to a
+   negation, #Paren to its content, #Var to the constants for Top / Bottom and to the atom of that name otherwise.  Which tree ANTLR
+   builds for a text (precedence, rejection of ill-formed text) is the part of C10 carried by the model's parser above and its
+   correspondence check. *)
+Theorem C10_source_visitor_denotes : forall n idx t fuel, depth t < fuel -> visit n idx fuel t = Return (denote idx t).
+Proof. exact tie_visit. Qed.
+Print Assumptions C10_source_visitor_denotes.
+Example visitor_source_example :
+  visit 0 (fun s => if String.eqb s "a" then 0 else 1) 5 (POr (PAnd (PVar "a") (PNeg (PVar "b"))) (PParen (PVar "Bottom")))
+  = Return (FOr (FAnd (FVar 0) (FNot (FVar 1))) FBot).
+Proof. vm_compute. reflexivity. Qed.
